@@ -125,6 +125,43 @@ def work(item, opts):
             o2.set_config_parameters(json.loads(json.dumps(d)))
             if o2.configuration != ref:
                 viol("set-config-differs", f"[{how}] re-configuration of a configured instance: {o2.configuration!r} != {ref!r}"[:300])
+    # 4a. values of other-but-accepted Python types (numpy scalars from np.arange grids, integral floats for ints, tuples for
+    # lists, 0/1 for bools): set_config_parameters must accept exactly what the config model accepts
+    import copy as _copy
+    import numpy as _np
+    for _ in range(max(4, item["n_dicts"] // 3)):
+        cfgv, _k = universe.make_config(rng, name, perturbed=rng.random() < 0.5)
+        d = dict(cfgv)
+        for k in rng.sample(sorted(d), min(len(d), rng.randint(1, 3))):
+            v = d[k]
+            if isinstance(v, bool):
+                d[k] = rng.choice([int(v), _np.bool_(v)])
+            elif isinstance(v, int):
+                d[k] = rng.choice([_np.int64(v), float(v), _np.int32(v), str(v)])
+            elif isinstance(v, float):
+                d[k] = rng.choice([_np.float64(v), _np.float32(v), str(v)] + ([int(v)] if float(v).is_integer() else []))
+            elif isinstance(v, list):
+                d[k] = rng.choice([tuple(v), _np.array(v), [_np.float64(e) if isinstance(e, float) else e for e in v]])
+        out["n"] += 1
+        out["dicts"] += 1
+        st, ref = try_config(Cfg, _copy.copy(d))
+        o = cls()
+        try:
+            o.set_config_parameters(_copy.copy(d))
+            got = ("ok", o.configuration)
+        except Exception as e:
+            got = ("raise", e)
+        shown = {kk: (type(vv).__name__, vv if not isinstance(vv, _np.ndarray) else vv.tolist()) for kk, vv in d.items() if type(vv) not in (int, float, list, bool, type(None), dict)}
+        if st == "ok":
+            out["accepted"] += 1
+            if got[0] != "ok":
+                viol("set-config-rejects-valid", f"[typed values {shown!r}] config model accepts, set_config_parameters raised {got[1]!r}"[:400])
+            elif got[1] != ref:
+                viol("set-config-differs", f"[typed values {shown!r}] configuration {got[1]!r} != {ref!r}"[:400])
+        else:
+            out["rejected"] += 1
+            if got[0] == "ok":
+                viol("set-config-accepts-invalid", f"[typed values {shown!r}] config model raises {type(ref).__name__}, set_config_parameters accepted"[:400])
     # 4b. set_config_parameters REPLACES the configuration: a dictionary that omits an optional parameter gives that
     # parameter its default, whatever the instance held before (empty -> d1 -> d2 and ctor(c1) -> d2)
     fields = Cfg.model_fields
